@@ -304,6 +304,44 @@ func sliceOfBytes(sv string) cval {
 func (w *World) newConcr() *concr { return &concr{w: w} }
 
 func (ci *concr) run(fn *ssa.Function, args []cval, depth int) concrOutcome {
+	return ci.runB(fn, args, nil, depth)
+}
+
+// wrapInt: integer results are reduced to the width of their type (uint8 arithmetic wraps).
+func wrapInt(v cval, t types.Type) cval {
+	if v.kind != cConst || v.c.Kind() != constant.Int {
+		return v
+	}
+	b, ok := t.Underlying().(*types.Basic)
+	if !ok || b.Info()&types.IsInteger == 0 {
+		return v
+	}
+	i, exact := constant.Int64Val(v.c)
+	if !exact {
+		if u, ok := constant.Uint64Val(v.c); ok {
+			i = int64(u)
+		} else {
+			return cval{}
+		}
+	}
+	switch b.Kind() {
+	case types.Uint8:
+		i = int64(uint8(i))
+	case types.Int8:
+		i = int64(int8(i))
+	case types.Uint16:
+		i = int64(uint16(i))
+	case types.Int16:
+		i = int64(int16(i))
+	case types.Uint32:
+		i = int64(uint32(i))
+	case types.Int32:
+		i = int64(int32(i))
+	}
+	return cval{kind: cConst, c: constant.MakeInt64(i)}
+}
+
+func (ci *concr) runB(fn *ssa.Function, args []cval, bindings []cval, depth int) concrOutcome {
 	if fn.Blocks == nil || depth > 8 {
 		return concrOutcome{status: "unknown", why: "no body / too deep: " + funcName(fn)}
 	}
@@ -313,12 +351,35 @@ func (ci *concr) run(fn *ssa.Function, args []cval, depth int) concrOutcome {
 			env[p] = args[i]
 		}
 	}
+	for i, fv := range fn.FreeVars {
+		if i < len(bindings) {
+			env[fv] = bindings[i]
+		}
+	}
 	get := func(v ssa.Value) cval {
 		if c, ok := v.(*ssa.Const); ok {
 			if c.Value == nil {
-				return cval{kind: cNilPtr}
+				return zeroCval(c.Type(), false)
 			}
 			return cval{kind: cConst, c: c.Value}
+		}
+		if g, ok := v.(*ssa.Global); ok && ci.heap {
+			_, have := ci.globals[g]
+			if !have && !(ci.zeroGlobals && g.Pkg != nil && corePkg(g.Pkg.Pkg.Path())) {
+				return cval{}
+			}
+			cell := ci.globalCell(g)
+			if at, isArr := g.Type().(*types.Pointer).Elem().Underlying().(*types.Array); isArr {
+				if cell.v.kind != cArr {
+					a := &carray{e: make([]cval, at.Len())}
+					for i := range a.e {
+						a.e[i] = zeroCval(at.Elem(), false)
+					}
+					cell.v = cval{kind: cArr, arr: a}
+				}
+				return cell.v
+			}
+			return cval{kind: cRef, cell: cell}
 		}
 		if x, ok := env[v]; ok {
 			return x
@@ -405,6 +466,9 @@ func (ci *concr) run(fn *ssa.Function, args []cval, depth int) concrOutcome {
 					case cElem:
 						env[x] = v.arr.e[v.idx]
 						continue
+					case cArr:
+						env[x] = v // an array value: the same storage (the tables followed are not modified after they are built)
+						continue
 					}
 					env[x] = cval{}
 				case token.NOT:
@@ -414,10 +478,10 @@ func (ci *concr) run(fn *ssa.Function, args []cval, depth int) concrOutcome {
 					} else {
 						env[x] = cval{}
 					}
-				case token.SUB:
+				case token.SUB, token.XOR:
 					v := get(x.X)
-					if v.kind == cConst {
-						env[x] = cval{kind: cConst, c: constant.UnaryOp(token.SUB, v.c, 0)}
+					if v.kind == cConst && v.c.Kind() == constant.Int {
+						env[x] = wrapInt(cval{kind: cConst, c: constant.UnaryOp(x.Op, v.c, 0)}, x.Type())
 					} else {
 						env[x] = cval{}
 					}
@@ -443,7 +507,7 @@ func (ci *concr) run(fn *ssa.Function, args []cval, depth int) concrOutcome {
 					env[x] = cval{}
 				}
 			case *ssa.BinOp:
-				env[x] = concrBinOp(x.Op, get(x.X), get(x.Y))
+				env[x] = wrapInt(concrBinOp(x.Op, get(x.X), get(x.Y)), x.Type())
 			case *ssa.ChangeType:
 				env[x] = get(x.X)
 			case *ssa.Convert:
@@ -499,7 +563,13 @@ func (ci *concr) run(fn *ssa.Function, args []cval, depth int) concrOutcome {
 					for _, a := range x.Call.Args {
 						as = append(as, get(a))
 					}
-					out := ci.run(callee, as, depth+1)
+					var binds []cval
+					if mc, ok := x.Call.Value.(*ssa.MakeClosure); ok {
+						for _, bv := range mc.Bindings {
+							binds = append(binds, get(bv))
+						}
+					}
+					out := ci.runB(callee, as, binds, depth+1)
 					switch out.status {
 					case "panic":
 						return out
@@ -571,6 +641,20 @@ func (ci *concr) run(fn *ssa.Function, args []cval, depth int) concrOutcome {
 					a.cell.v = get(x.Val)
 				case cElem:
 					a.arr.e[a.idx] = get(x.Val)
+				case cArr:
+					// a whole array is assigned: the zero value, or a copy of another array
+					at, _ := x.Val.Type().Underlying().(*types.Array)
+					v := get(x.Val)
+					switch {
+					case v.kind == cArr && len(v.arr.e) == len(a.arr.e):
+						copy(a.arr.e, v.arr.e)
+					case at != nil && isNilValuedConst(x.Val):
+						for i := range a.arr.e {
+							a.arr.e[i] = zeroCval(at.Elem(), false)
+						}
+					default:
+						return concrOutcome{status: "unknown", why: "array assignment that is not followed at " + ci.w.pos(x.Pos())}
+					}
 				default:
 					return concrOutcome{status: "unknown", why: "store through an address that is not followed at " + ci.w.pos(x.Pos())}
 				}
@@ -699,6 +783,11 @@ func concrCondPos(x *ssa.If, b *ssa.BasicBlock) token.Pos {
 	return token.NoPos
 }
 
+func isNilValuedConst(v ssa.Value) bool {
+	c, ok := v.(*ssa.Const)
+	return ok && c.Value == nil
+}
+
 func concrBuiltin(name string, as []cval, t types.Type) cval {
 	switch name {
 	case "len":
@@ -795,6 +884,8 @@ func zeroCval(t types.Type, commaOk bool) cval {
 		if u.NumFields() == 0 {
 			return cval{kind: cZero}
 		}
+	case *types.Signature, *types.Chan:
+		return cval{kind: cNilPtr}
 	}
 	return cval{}
 }
@@ -834,10 +925,18 @@ func concrBinOp(op token.Token, a, b cval) cval {
 				return cval{kind: cConst, c: constant.MakeBool(constant.Compare(a.c, op, b.c))}
 			}
 			return cval{}
-		case token.ADD, token.SUB, token.MUL, token.AND, token.OR, token.XOR, token.LAND, token.LOR:
+		case token.ADD, token.SUB, token.MUL, token.AND, token.OR, token.XOR, token.AND_NOT, token.LAND, token.LOR:
 			defer func() { recover() }()
 			if a.c.Kind() == b.c.Kind() {
 				return cval{kind: cConst, c: constant.BinaryOp(a.c, op, b.c)}
+			}
+		case token.QUO, token.REM:
+			defer func() { recover() }()
+			if a.c.Kind() == constant.Int && b.c.Kind() == constant.Int && constant.Sign(b.c) != 0 {
+				if op == token.QUO {
+					return cval{kind: cConst, c: constant.BinaryOp(a.c, token.QUO_ASSIGN, b.c)}
+				}
+				return cval{kind: cConst, c: constant.BinaryOp(a.c, token.REM, b.c)}
 			}
 		case token.SHL, token.SHR:
 			if s, ok := constant.Uint64Val(b.c); ok && a.c.Kind() == constant.Int {
